@@ -26,7 +26,7 @@ from sim import isolate
 from sim import threads as T
 from sim.adata import Events, PrivateFault, make_async_data
 from sim.core import native_text, unescaped, Outcome, digest, exc_key, internal_leak, scrub
-from sim.envs import AE_MODES, CodeMemo, clear_process_caches
+from sim.envs import AE_MODES, CodeMemo, clear_process_caches, process_globals_changed
 from sim.tape import Tape
 from sim import workload as W
 from sim.workload import Gen, make_data_seed, snapshot
@@ -43,6 +43,7 @@ RULE = (
     "boundaries inside LRUCache, template cache hot / code-memo warm / cold (compiling inside the run). Non-trivial = history "
     "with >= 2 renders of one (template, data) pair, or a schedule with >= 1 fired pre-emption or lock hand-over; distinct = "
     "digest(program, history or (thread programs, switch trace))."
+    " Environment classes Environment / NativeEnvironment / SandboxedEnvironment (native container results are changed by the harness unless they are an input); a third of the schedule runs make one thread's k-th data call raise; references come from pristine interpreters in one run of 64 and in every run after a process-global container of jinja2 was seen changed; a run that does not return within 45 s is the violation no-termination."
 )
 ASSUMPTIONS = [
     "the isolated reference render of the same code (fresh environment, fresh data) is the oracle (differential)",
@@ -415,7 +416,7 @@ def run_schedule(tape, out, P, cfg):
     def execute(sched_tape, plan, serial, record_regions=False):
         env, datas = build()
         before = _snap_inputs(datas, env, {})
-        sched = T.Sched(sched_tape, step_cap=3_000_000, line_level=True, record_regions=record_regions, wall_cap=60.0)
+        sched = T.Sched(sched_tape, step_cap=CAP[0], line_level=True, record_regions=record_regions, wall_cap=90.0)
         results = [[None] * len(ops) for ops in progs]
 
         def body(tid, ops):
@@ -434,8 +435,18 @@ def run_schedule(tape, out, P, cfg):
         after = _snap_inputs(datas, env, {})
         return sched, results, _diff_snap(before, after)
 
+    CAP[0] = 6_000_000
     s0, r0, ch0 = execute(Tape(streams={}), [], True, record_regions=True)
     horizons = [st.local_step for st in s0.threads]
+    if s0.abort == "stepcap" or sum(horizons) > 1_500_000:
+        # a program too heavy for a simulated schedule (e.g. cache size 0 and a module re-compiled in every loop
+        # iteration): not run, counted; the concurrent cap below is relative to the serial work, so it only fires for
+        # a run that does far more than its serial execution (livelock), which is reported as a harness error
+        out.count("schedule_runs_skipped_too_heavy")
+        out.decoded = {"kind": "schedule", "skipped": "too heavy", "serial_steps": sum(horizons)}
+        out.trace = digest(["skipped", sum(horizons)])
+        return
+    CAP[0] = 20 * sum(horizons) + 200_000
     d = tape.draw(4, "s")
     plan = []
     for _ in range(d):
@@ -548,6 +559,9 @@ def run_schedule(tape, out, P, cfg):
         out.case = digest(["sched", P.templates, progs, dseeds, sched.trace])
 
 
+CAP = [6_000_000]
+
+
 def serial_ok_is_false(r0, mism) -> bool:
     """True if the SERIAL execution of the thread programs already shows the mismatch (then it is not an interleaving)."""
     tid, j, _got, want = mism
@@ -579,7 +593,12 @@ def run(tape: Tape) -> Outcome:
         TG["base"] = 10 + v2  # 'base' is only ever extended (the child's context is used then), never included/imported
     cfg = Cfg(is_async, ae, lc, cache_size, True, envcls)
     out.count("env_class_" + ("Environment", "NativeEnvironment", "SandboxedEnvironment")[envcls])
-    ISOLATED[0] = 99 if tape.draw(64) == 63 and not __import__("os").environ.get("NOISO") else 0  # one run in 64 takes ALL its references from pristine interpreters
+    ISOLATED[0] = 99 if tape.draw(64) == 63 and not __import__("os").environ.get("NOISO") else 0
+    if process_globals_changed():
+        # some earlier run of this worker left a process-global container of jinja2 different from a fresh
+        # interpreter's: in-process references share that state, so take them from pristine interpreters
+        ISOLATED[0] = 99
+        out.count("runs_after_process_global_state_changed")  # one run in 64 takes ALL its references from pristine interpreters
     out.count("runs_with_pristine_process_references", 1 if ISOLATED[0] else 0)
     gc_was = gc.isenabled()
     gc.disable()
@@ -592,3 +611,7 @@ def run(tape: Tape) -> Outcome:
         if gc_was:
             gc.enable()
     return out
+
+from sim.core import guarded as _guarded  # noqa: E402
+
+run = _guarded(run)
